@@ -258,7 +258,14 @@ class RtlilEval:
                         bind[pname] = (lambda spec=spec: inst.sig(spec))
                 inst.children[key] = Inst(self, sub, inst.path + (c.name,), bind)
             child = inst.children[key]
-            return {pname: child.wire(pname) for pname in c.ports if self.mods[k].wires[pname].port_kind in ("output", "inout")}
+
+            class _LazyOutputs(dict):
+                # one output of a submodule may depend on a parent signal that depends on ANOTHER output of the same submodule:
+                # evaluate per requested port, not the whole instance at once
+                def __missing__(d, pname):
+                    d[pname] = child.wire(pname)
+                    return d[pname]
+            return _LazyOutputs()
         if k in UNARY:
             aw, yw, asg = P["\\A_WIDTH"], P["\\Y_WIDTH"], bool(P["\\A_SIGNED"])
             a = self._ext(inst.sig(c.ports["\\A"]), aw, yw, asg)
